@@ -5,6 +5,7 @@ import (
 	"go/types"
 	"os"
 	"path/filepath"
+	"regexp"
 	"sort"
 	"strings"
 
@@ -31,6 +32,8 @@ type World struct {
 	Sentinels map[*ssa.Global]int // package-level error sentinels (errors.New) -> id
 	ToolErrs  []string
 	tagTypeMap map[int]types.Type
+	tagsAtLoad int
+	implCache map[string][]int
 	embeddable map[string]bool
 	containers map[string]map[string]types.Type
 	elemOf map[string]bool
@@ -112,9 +115,11 @@ func loadWorld(repo string, specDir string) (*World, error) {
 	}
 	w.findSentinels()
 	w.computeEmbeddable()
+	w.preRegisterTags(specDir)
 	if err := w.prepareSpecs(); err != nil {
 		return nil, err
 	}
+	w.tagsAtLoad = len(w.TagNames)
 	return w, nil
 }
 
@@ -245,6 +250,16 @@ func (w *World) tagFor(t types.Type) int {
 	w.TagOf[k] = id
 	w.TagNames = append(w.TagNames, k)
 	w.tagTypes()[id] = t
+	// keep the table closed under pointer / element: T <-> *T
+	switch u := t.(type) {
+	case *types.Pointer:
+		w.tagFor(u.Elem())
+	default:
+		switch t.Underlying().(type) {
+		case *types.Struct, *types.Array:
+			w.tagFor(types.NewPointer(t))
+		}
+	}
 	return id
 }
 
@@ -395,4 +410,153 @@ func (w *World) containerTypes(t types.Type) (out []types.Type, ok bool) {
 	sort.Slice(res, func(i, j int) bool { return types.TypeString(res[i], nil) < types.TypeString(res[j], nil) })
 	w.contCache[k] = res
 	return res, true
+}
+
+// preRegisterTags fills the dynamic-type table before any function is
+// verified, so that "the dynamic type implements the static interface"
+// assumptions range over the same set of known types in every function:
+// every type converted to an interface in the module, and every type named
+// in a contract or spec (typeis / type assertions / dispatch).
+func (w *World) preRegisterTags(specDir string) {
+	var fns []*ssa.Function
+	for f := range w.AllFuncs {
+		p := f.Pkg
+		if p == nil && f.Parent() != nil {
+			p = f.Parent().Pkg
+		}
+		if p != nil && strings.HasPrefix(p.Pkg.Path(), modPath) {
+			fns = append(fns, f)
+		}
+	}
+	sort.Slice(fns, func(i, j int) bool { return fns[i].String() < fns[j].String() })
+	w.tagFor(types.NewPointer(types.Typ[types.Invalid])) // sentinel pseudo type
+	seen := map[types.Type]bool{}
+	var reg func(t types.Type, depth int)
+	reg = func(t types.Type, depth int) {
+		if t == nil || seen[t] || depth > 6 {
+			return
+		}
+		seen[t] = true
+		switch u := t.Underlying().(type) {
+		case *types.Pointer:
+			switch u.Elem().Underlying().(type) {
+			case *types.Struct, *types.Array:
+				w.tagFor(t)
+			}
+			reg(u.Elem(), depth+1)
+		case *types.Chan:
+			w.tagFor(t)
+			reg(u.Elem(), depth+1)
+		case *types.Map:
+			w.tagFor(t)
+			reg(u.Key(), depth+1)
+			reg(u.Elem(), depth+1)
+		case *types.Struct:
+			w.tagFor(t)
+			for i := 0; i < u.NumFields(); i++ {
+				reg(u.Field(i).Type(), depth+1)
+			}
+		case *types.Array:
+			w.tagFor(t)
+			reg(u.Elem(), depth+1)
+		case *types.Slice:
+			reg(u.Elem(), depth+1)
+		case *types.Tuple:
+			for i := 0; i < u.Len(); i++ {
+				reg(u.At(i).Type(), depth+1)
+			}
+		}
+	}
+	for _, f := range fns {
+		for _, p := range f.Params {
+			reg(p.Type(), 0)
+		}
+		for _, b := range f.Blocks {
+			for _, in := range b.Instrs {
+				if mi, ok := in.(*ssa.MakeInterface); ok {
+					w.tagFor(mi.X.Type())
+				}
+				if v, ok := in.(ssa.Value); ok {
+					reg(v.Type(), 0)
+				}
+			}
+		}
+	}
+	// container types of everything registered so far
+	for i := 0; i < len(w.TagNames); i++ {
+		if t := w.tagTypes()[i+1]; t != nil {
+			if cts, ok := w.containerTypes(t); ok {
+				for _, ct := range cts {
+					w.tagFor(ct)
+				}
+			}
+		}
+	}
+	re := regexp.MustCompile(`typeis\([^,]+,\s*"([^"]+)"\)|\.\((\*?[A-Za-z0-9_./]+)\)|dispatch\s+(.*)`)
+	var files []string
+	sf, _ := filepath.Glob(filepath.Join(specDir, "*.spec"))
+	files = append(files, sf...)
+	for _, p := range w.Pkgs {
+		if strings.HasPrefix(p.PkgPath, modPath) {
+			rel := strings.TrimPrefix(strings.TrimPrefix(p.PkgPath, modPath), "/")
+			files = append(files, filepath.Join(w.RepoDir, rel, "verif_contracts.go"))
+		}
+	}
+	sort.Strings(files)
+	for _, f := range files {
+		data, err := os.ReadFile(f)
+		if err != nil {
+			continue
+		}
+		for _, m := range re.FindAllStringSubmatch(string(data), -1) {
+			for _, g := range m[1:] {
+				for _, name := range strings.Fields(g) {
+					if t := w.lookupType(name); t != nil {
+						w.tagFor(t)
+					}
+				}
+			}
+		}
+	}
+}
+
+// implementers: ids of the known dynamic types that implement the interface.
+func (w *World) implementers(it *types.Interface, named types.Type) []int {
+	key := types.TypeString(named, nil)
+	if w.implCache == nil {
+		w.implCache = map[string][]int{}
+	}
+	if w.tagsAtLoad > 0 {
+		if c, ok := w.implCache[key]; ok {
+			return c
+		}
+	}
+	var out []int
+	for id := 1; id <= len(w.TagNames); id++ {
+		dt := w.tagTypes()[id]
+		if dt == nil {
+			continue
+		}
+		if _, isIface := dt.Underlying().(*types.Interface); isIface {
+			continue
+		}
+		if b, isBasic := dt.(*types.Basic); isBasic && b.Kind() == types.Invalid {
+			continue
+		}
+		if pt, isPtr := dt.(*types.Pointer); isPtr {
+			if b, isBasic := pt.Elem().(*types.Basic); isBasic && b.Kind() == types.Invalid {
+				if it.NumMethods() == 1 && it.Method(0).Name() == "Error" {
+					out = append(out, id)
+				}
+				continue
+			}
+		}
+		if types.Implements(dt, it) {
+			out = append(out, id)
+		}
+	}
+	if w.tagsAtLoad > 0 {
+		w.implCache[key] = out
+	}
+	return out
 }
